@@ -57,11 +57,23 @@ func NewContextForSecuredDevice(b SecuredDevice) Context {
 }
 
 func (ctx *context) GetKey(c net.Conn) interface{} {
-	return c.RemoteAddr().String()
+	return connectionKey(c.RemoteAddr().String(), c.LocalAddr())
 }
 
 func (ctx *context) GetConnectionKey(r *http.Request) interface{} {
-	return r.RemoteAddr
+	local, _ := r.Context().Value(http.LocalAddrContextKey).(net.Addr)
+	return connectionKey(r.RemoteAddr, local)
+}
+
+// connectionKey returns the key of a connection, made of the addresses of both ends.
+// Two connections which are open at the same time never have both addresses in common;
+// the remote address alone is not unique when the server listens on several addresses.
+func connectionKey(remote string, local net.Addr) string {
+	if local == nil {
+		return remote
+	}
+
+	return remote + "@" + local.String()
 }
 
 func (ctx *context) Set(key, val interface{}) {
